@@ -1067,7 +1067,11 @@ class Minimizer(
             xmin = np.where(condmax, bounds[:, 1], xmin)
             if args is None:
                 args = tuple()
-            (fmin, grads) = func(xmin, *args)
+            # Depending on the minimizer implementation the function returns
+            # only the function value, or a tuple with the function value as
+            # first element followed by its derivatives.
+            res = func(xmin, *args)
+            fmin = res[0] if isinstance(res, tuple) else res
 
         logger.debug(
             '%s (%s): Minimized function: %d iterations, %d repetitions, '
